@@ -40,6 +40,9 @@ class Evaluator:
 
     def atom(self, i):
         r = self.R.render(i)
+        if r.endswith('.size') and ('strempty:' + r[:-5]) in self.model:
+            self.used.add('strempty:' + r[:-5])
+            return 0 if self.model['strempty:' + r[:-5]] else 1
         if r in self.model:
             self.used.add(r)
             return self.model[r]
@@ -152,6 +155,27 @@ class Evaluator:
             except (OverflowError, ZeroDivisionError):
                 return None
             return wrap(v, n.get('tc'), n.get('tw'))
+        # emptiness of a string, however it is spelled: s.compare("") / s == "" / s.empty() / s.size()
+        if k == 'CXXMemberCallExpr' and n['callee'].get('classq') == 'std::basic_string' and n.get('obj') is not None:
+            key = 'strempty:' + self.R.render(n['obj'])
+            if key in self.model:
+                self.used.add(key)
+                nm = n['callee']['name']
+                if nm == 'compare' and len(n.get('args', [])) == 1 and self.R.render(n['args'][0]) == '""':
+                    return 0 if self.model[key] else 1
+                if nm == 'empty':
+                    return bool(self.model[key])
+                if nm in ('size', 'length'):
+                    return 0 if self.model[key] else 1
+        if k in ('CXXOperatorCallExpr', 'CallExpr') and n.get('callee', {}).get('name') in ('operator==', 'operator!=') and len(n.get('args', [])) == 2:
+            rs = [self.R.render(a) for a in n['args']]
+            if '""' in rs:
+                other = rs[0] if rs[1] == '""' else rs[1]
+                key = 'strempty:' + other
+                if key in self.model:
+                    self.used.add(key)
+                    e = bool(self.model[key])
+                    return e if n['callee']['name'] == 'operator==' else (not e)
         if k == 'CXXOperatorCallExpr' and n.get('op') in ('==', '!=') and len(n.get('args', [])) == 2:
             l, r = self.ev(n['args'][0]), self.ev(n['args'][1])
             if l is None or r is None:
@@ -178,6 +202,7 @@ def walk(fn, model, start=None, stop=None, follow_loops=False, max_steps=5000):
     out = []
     seen = set()
     undec = []
+    range_visits = {}
     steps = 0
     while True:
         steps += 1
@@ -215,6 +240,27 @@ def walk(fn, model, start=None, stop=None, follow_loops=False, max_steps=5000):
                 t = fn.nodes[fn.strip(n['ch'][0], 'all')]
                 if t['k'] == 'DeclRefExpr' and t['decl'].get('dk') == 'local' and t['decl']['id'] not in ev.R.single_def_locals():
                     model['local:' + t['decl']['name']] = ev.ev(n['ch'][1])
+        if v in g.branch and g.branch[v]['termk'] == 'CXXForRangeStmt' and len(g.branch[v]['targets']) == 2:
+            # range-for: the condition holds once per element of the range
+            term = fn.nodes[g.branch[v]['term']]
+            n_el = None
+            if 'range' in term:
+                key = ev.R.render(term['range']) + '.size'
+                n_el = model.get(key)
+            if n_el is None:
+                undec.append((g.branch[v]['cond'], {ev.R.render(term['range']) + '.size' if 'range' in term else '?': 'u'}))
+                return out, 'undecided@%d' % g.branch[v]['cond'], undec
+            cnt = range_visits.get(g.branch[v]['term'], 0)
+            if cnt < n_el:
+                range_visits[g.branch[v]['term']] = cnt + 1
+                seen.discard(v)
+                tg = g.branch[v]['targets'][0]
+            else:
+                tg = g.branch[v]['targets'][1]
+            if not tg:
+                return out, 'NEXIT', undec
+            v = tg[0]
+            continue
         if v in g.branch and g.branch[v]['cond'] >= 0 and len(g.branch[v]['targets']) == 2 and not g.branch[v]['tempdtor']:
             ev.unknown.clear()
             val = ev.ev(g.branch[v]['cond'])
